@@ -21,7 +21,7 @@ RULE = (
 )
 COMPONENTS = c01.COMPONENTS
 ASSUMPTIONS = c01.ASSUMPTIONS
-PROBES = ["dry_run_then_mutation_then_full_run", "analysis_only", "eval_without_path_commit", "restricted_on_populated_store", "twin_ops_compared",
+PROBES = ["dry_run_peer_full_run_then_full_run", "dry_run_then_mutation_then_full_run", "analysis_only", "eval_without_path_commit", "restricted_on_populated_store", "twin_ops_compared",
           "enum_spelling", "mixed_case_spelling"]
 ORDER = ["analysis", "store_inspect", "eval", "store_commit", "path_commit"]
 
@@ -30,6 +30,7 @@ PROFILE = {
     "edits": ["var", "ver", "lit", "comment", "unrelated"],
     "n": (3, 8),
     "p_restart": 0.5,
+    "p_proc2": 0.3,
     "stores": ("local", "local", "local+cache", "memory"),
 }
 
@@ -59,7 +60,14 @@ def gen_case(streams, tier, avoid):
         new = {"op": "eval", "entry": op["entry"], "style": "eval", "snap": True, "restricted": True,
                "opts": {"dds_stages": stages}}
         at = pos + f.choice([0, 1])
+        if op.get("proc"):
+            new["proc"] = op["proc"]
         case["ops"].insert(at, new)
+        if any(o.get("proc") for o in case["ops"]) and case["store"].get("kind") != "memory" and f.random() < 0.5:
+            # dry run in the long-running process, the full run in the main process, then the full run in the first one
+            new["proc"] = 1
+            case["ops"].insert(at + 1, {"op": "eval", "entry": op["entry"], "style": "eval"})
+            case["ops"].insert(at + 2, {"op": "eval", "entry": op["entry"], "style": "eval", "proc": 1})
         prog = case["prog"]
         free = [v for v in sorted(prog["vars"])
                 if not any(ir.default_var(d) == v for g in prog["funcs"].values() for (_, d) in g["params"])]
@@ -92,6 +100,8 @@ def run_case(case):
         for a, b in zip(case["ops"], case["ops"][1:]):
             if a.get("restricted") and b["op"] == "mutate":
                 probe("dry_run_then_mutation_then_full_run")
+            if a.get("restricted") and a.get("proc") == 1 and b["op"] == "eval" and not b.get("proc"):
+                probe("dry_run_peer_full_run_then_full_run")
         restricted = [o for o in w.obs if o["op"] == "eval" and o["opts"].get("dds_stages")]
         nontrivial = False
         for o in restricted:
